@@ -65,9 +65,12 @@ impl<T> HxMapUnit for Option<T> { type O = Option<()>; open spec fn hx_mu(self, 
 // rule G6: the value comes out of a lock guard that stays alive (as a temporary of an `if let`/`match` scrutinee, or as a local) across
 // a later await: whoever else needs that lock waits for as long as this future is kept un-polled. The shape itself is the defect.
 pub fn hx_guard_held_across_await<T>(t: T) -> (r: T)
-    requires false,                                                                            // @ob lock.guard-not-held-across-an-await C02,C17,C18
+    requires false,                                                                            // @ob lock.guard-not-held-across-an-await C02,C17,C18,C08
     ensures r == t
 { t }
+pub fn hx_guard_shape_marker()
+    requires false,                                                                            // @ob lock.guard-not-held-across-an-await C02,C17,C18,C08
+{ }
 // Option / Result ::unwrap_or_default (rule C1u): the contained value if there is one; otherwise `Default::default()`, about which nothing is assumed
 pub trait HxUnwrapOrDefault: Sized { type V; spec fn hx_has(&self) -> bool; spec fn hx_val(&self) -> Self::V;
     fn hx_unwrap_or_default(self) -> (r: Self::V) ensures self.hx_has() ==> r == self.hx_val(); }
@@ -107,7 +110,7 @@ pub fn select2<FA: VFuture, FB: VFuture>(a: FA, b: FB, Tracked(w): Tracked<&mut 
 #[verifier::external_body]
 pub fn select2_biased<FA: VFuture, FB: VFuture>(a: FA, b: FB, Tracked(w): Tracked<&mut World>) -> (r: Sel<FA::Output, FB::Output>)
     requires a.pre(old(w)), b.pre(old(w)),
-        false,                                                                                 // @ob select.both-sources-get-their-turn-no-fixed-preference C13,C04,C03
+        false,                                                                                 // @ob select.both-sources-get-their-turn-no-fixed-preference C13,C04,C03,C02
     ensures
         r is A ==> exists|m: World| #![auto] a.done(old(w), &m, &r->A_0) && b.dropped(&m, final(w)) && a.ready_at() <= b.ready_at(),
         r is B ==> exists|m: World| #![auto] b.done(old(w), &m, &r->B_0) && a.dropped(&m, final(w)) && b.ready_at() <= a.ready_at(),
